@@ -28,6 +28,10 @@ pub fn seeds(tier: Tier) -> Vec<Seed> {
     for p in g::family_programs() {
         seeds.push(Seed { code: p, family: "families" });
     }
+    // Luau programs are in the property's domain too ("Lua 5.1/Luau program")
+    for s in super::c06::seeds(tier) {
+        seeds.push(Seed { code: s.code, family: "Luau fragments" });
+    }
     if tier == Tier::Thorough {
         let frags2 = g::exprs_depth2(false);
         for c in ["return @", "local a, b = @\nreturn a, b", "if @ then E1\"t\" else E1\"f\" end", "local a = @", "E1(@)"] {
